@@ -18,7 +18,8 @@ EXPLANATION = (
     "instantiated there no method other than __init__ (resolved through the MRO) may store to self.<attr>, and no read* method may "
     "return self; (R2) the per-instance containers (_settings, _sensors*) are created afresh in __init__ / re-bound, never a "
     "class-level or module-level list / dict mutated in place; (R3) the inventory of 'global' statements and of module-level mutable "
-    "objects mutated inside functions is exactly {protocol._modbus_tcp_tx}, which the property exempts; (R4) request_bytes mutates "
+    "objects mutated inside functions is exactly {protocol._modbus_tcp_tx}, which the property exempts, and no function other than "
+    "the one advancing that counter reads it (so it can influence nothing but the id bytes); (R4) request_bytes mutates "
     "self.request only in command classes that are never instantiated at module / class level. Observational equivalence of "
     "interleaved and solo runs is not decided."
 )
@@ -56,7 +57,7 @@ def shared_instances(ctx: Ctx) -> Dict[str, List[str]]:
 def check(ctx: Ctx, rep: Report):
     rep.rule("C20.R1", "definitions shared by all inverter objects are immutable: no method besides __init__ stores to self, no read* returns self", 40)
     rep.rule("C20.R2", "per-instance containers are fresh; class-level / module-level lists and dicts are never mutated in place", 6)
-    rep.rule("C20.R3", "module-level mutable state mutated from functions is exactly {protocol._modbus_tcp_tx}", 1)
+    rep.rule("C20.R3", "module-level mutable state mutated from functions is exactly {protocol._modbus_tcp_tx}, and only the function advancing it reads it", 2)
     rep.rule("C20.R4", "request_bytes mutates self.request only in command classes never instantiated at module / class level", 1)
     prog = ctx.prog
     shared = shared_instances(ctx)
@@ -172,6 +173,22 @@ def check(ctx: Ctx, rep: Report):
     ok = globals_found == ["protocol._modbus_tcp_tx"] and not mutated
     rep.check(ok, "C20.R3", "global-inventory", "goodwe/protocol.py", "global state written by functions: %s" % globals_found,
               bad="module-level state written from functions is %s %s, not just the exempted protocol._modbus_tcp_tx" % (globals_found, mutated))
+    # the exempted counter influences nothing but the id bytes it stamps: only the function that advances it reads it
+    for g in globals_found:
+        mname, var = g.rsplit(".", 1)
+        mod = next((m for m in prog.modules.values() if m.short == mname), None)
+        writers = [f for f in prog.functions if f.module is mod and not f.is_lambda and any(isinstance(n, ast.Global) and var in n.names for n in ast.walk(f.node))]
+        for fn in prog.functions:
+            if fn.is_lambda or fn in writers:
+                continue
+            owner_ok = fn.module is mod or (prog.lookup(fn.module, var) is not None and prog._owner_module(fn.module, var) is mod)
+            if not owner_ok or var in _locals(fn):
+                continue
+            reads = [n for n in ast.walk(fn.node) if isinstance(n, ast.Name) and n.id == var and isinstance(n.ctx, ast.Load)]
+            if reads:
+                rep.violation("C20.R3", "counter-reader:%s:%s" % (g, fn.short), fn.loc(reads[0]),
+                              "%s reads the process-wide counter %s, which every inverter object advances: its behaviour then depends on what other objects did in the meantime" % (fn.short, g))
+        rep.ok("C20.R3", "counter-readers:%s" % g, "goodwe/%s.py" % mname, "%s is read only by %s" % (g, [w.short for w in writers]))
     # ---- R4
     base = prog.cls("ProtocolCommand")
     n4 = 0
